@@ -152,8 +152,8 @@ class MockStore(Mapping):
         if key in self.memo:
             return self.memo[key]
         spec = self._resolve(key)
-        if self.recorded is not None:
-            tag = f'{self.kind}:{key}'
+        tag = f'{self.kind}:{key}'
+        if self.recorded is not None and (tag in self.recorded or self.draw is None):
             if tag not in self.recorded:
                 raise ReplayMiss(tag)
             val = deser(self.recorded[tag], spec)
